@@ -18,7 +18,8 @@ RULE = ("inputs = for each base path (rendering of one universe Sid per path-typ
         "component, append '/x', '/', newline, an extension, remove the last component, swap the root for the other "
         "configuration's, a foreign path. Each evaluated cold, after the other configuration resolved the same string, and (paths "
         "holding '?' or ':') after the Sid that the result's string denotes was asked for its path. "
-        "The base paths exist on disk, each base file with a non-conforming symbolic link to it. The whole space is run once per first-loaded path configuration. distinct = distinct (path, configuration, first-loaded); non-trivial = differs from a valid path by <= k edits (all).")
+        "The base paths exist on disk, each base file with a non-conforming symbolic link to it. The whole space is run once per first-loaded path configuration. distinct = distinct (path, configuration, first-loaded); non-trivial = differs from a valid path by <= k edits (all)."
+        " Added order 'after-overflow': the path is asked before and again after more distinct paths than the caches hold (capacity 2 and 3).")
 ASSUMPTIONS = ["a typed result must satisfy str(result.path(c)) == p (the statement says 'exactly p'; '//' or a trailing '/' are other strings)"]
 
 
